@@ -19,7 +19,7 @@ def main():
             mod.regenerate(res)
     if res.broken:
         print("regeneration problems:", res.broken)
-    targets = [f[:-2] + ".vo" for f in common.coq_files()]
+    targets = common.coq_files()
     rc, out = common.coq_make(targets, timeout=3000)
     print(out[-3000:])
     if rc != 0:
